@@ -456,3 +456,122 @@ func runReplayTest(repo, src, pkgDir string) (string, error) {
 }
 
 var _ = ssa.NaiveForm
+
+// autoPatterns chooses E-matching triggers for a quantified clause: the innermost applications of
+// uninterpreted symbols / array reads that mention bound variables. Solvers' own inference often
+// fails on the Boolean structure the SSA translation produces.
+func autoPatterns(body string, binders []string) string {
+	nodes := parseSexp(body)
+	if len(nodes) != 1 {
+		return ""
+	}
+	bset := map[string]bool{}
+	for _, b := range binders {
+		bset[b] = true
+	}
+	var vars func(n *sexp, acc map[string]bool)
+	vars = func(n *sexp, acc map[string]bool) {
+		if n.list == nil {
+			if bset[n.atom] {
+				acc[n.atom] = true
+			}
+			return
+		}
+		for _, c := range n.list {
+			vars(c, acc)
+		}
+	}
+	isCand := func(n *sexp) bool {
+		if n.list == nil || len(n.list) < 2 || n.list[0].list != nil {
+			return false
+		}
+		h := n.list[0].atom
+		return h == "elemat" || h == "select" || h == "str_at" || h == "str_len" || strings.HasPrefix(h, "uf_") || h == "i2f64" || h == "f2i64"
+	}
+	var cands []*sexp
+	var walk func(n *sexp) bool // returns true if a candidate was found inside
+	walk = func(n *sexp) bool {
+		if n.list == nil {
+			return false
+		}
+		found := false
+		for _, c := range n.list {
+			if walk(c) {
+				found = true
+			}
+		}
+		if isCand(n) {
+			acc := map[string]bool{}
+			vars(n, acc)
+			if len(acc) > 0 {
+				// prefer the innermost candidate, except that an array read whose array argument
+				// holds the inner candidate is itself the useful trigger (select (select E a) i)
+				inner := false
+				for _, c := range n.list[1:] {
+					if c.list != nil && isCand(c) {
+						a2 := map[string]bool{}
+						vars(c, a2)
+						if len(a2) == len(acc) && n.list[0].atom != "select" {
+							inner = true
+						}
+					}
+				}
+				if !inner {
+					cands = append(cands, n)
+				}
+				return true
+			}
+		}
+		return found
+	}
+	walk(nodes[0])
+	seen := map[string]bool{}
+	var full, partial []string
+	for _, c := range cands {
+		t := c.String()
+		if seen[t] || strings.Contains(t, "(ite ") {
+			continue
+		}
+		seen[t] = true
+		acc := map[string]bool{}
+		vars(c, acc)
+		if len(acc) == len(bset) {
+			full = append(full, t)
+		} else {
+			partial = append(partial, t)
+		}
+	}
+	var out []string
+	for i, t := range full {
+		if i < 6 {
+			out = append(out, ":pattern ("+t+")")
+		}
+	}
+	if len(full) == 0 && len(partial) > 1 {
+		// one multi-pattern covering all variables
+		cover := map[string]bool{}
+		var pick []string
+		for _, t := range partial {
+			acc := map[string]bool{}
+			for _, n := range parseSexp(t) {
+				vars(n, acc)
+			}
+			add := false
+			for v := range acc {
+				if !cover[v] {
+					add = true
+				}
+			}
+			if add {
+				pick = append(pick, t)
+				for v := range acc {
+					cover[v] = true
+				}
+			}
+		}
+		if len(cover) == len(bset) {
+			out = append(out, ":pattern ("+strings.Join(pick, " ")+")")
+		}
+	}
+	return strings.Join(out, " ")
+}
